@@ -85,12 +85,17 @@ def for_hook(E, st, args, kw):
     node, it = args
     if isinstance(it, VObj) and it.cls == "seqdict":
         it = st.new_obj("seqdict_view", d=it, kind="keys")
-    if not (isinstance(it, VObj) and it.cls == "seqdict_view"):
+    generic = None
+    if isinstance(it, VObj) and it.cls != "seqdict_view":
+        m = R.models.get(it.cls)
+        if m is not None and hasattr(m, "iter_spec"):
+            generic = m.iter_spec(E, st, it)       # (length term, element function j -> V)
+    if generic is None and not (isinstance(it, VObj) and it.cls == "seqdict_view"):
         raise Unsupported("for loop over %r at line %d" % (it, node.lineno))
     k = E.loop_ordinal(node)
     key = "idx%d" % k
     st.ghost[key] = VInt(0)
-    n = st.get(st.get(it, "d"), "n").e
+    n = generic[0] if generic else st.get(st.get(it, "d"), "n").e
 
     def guard(h):
         j = h.ghost[key].e
@@ -98,7 +103,8 @@ def for_hook(E, st, args, kw):
         for s2, t in E.branch(h, j < n):
             if t:
                 s2.assume(j >= 0)
-                for ao in E.assign(node.target, view_elem(s2, it, j), s2):
+                elem = generic[1](j) if generic else view_elem(s2, it, j)
+                for ao in E.assign(node.target, elem, s2):
                     if ao.kind == "next":
                         res.append((ao.st, True, None))
                     else:
